@@ -22,6 +22,9 @@ Theorems (all unbounded: every state satisfying the invariant / every history fr
      `remap_keeps_routing`           a remapped configuration changes no row, count or store content:
                                      recorded stores keep being used,
      `delete_keeps_coreferrers`      deleting a version leaves every other one readable (shared parts);
+ faults `transition_fault_aborts`   every open/read/put fault at every copy step of a transition aborts it
+                                     and leaves the routing state untouched; `transition_under_faults`,
+                                     `invariant_all_faulty_histories`: invariant + readability under any fault plan;
  (c) `transition_keeps_content`      a transition keeps the contents of the parts and their order, what a
                                      reader gets, and every other entity,
      `transition_same_store_relabels` when all parts already live in the target store, part ids,
@@ -121,7 +124,7 @@ theorem transition_unfold {s s' : State} {t : Nat} {cls : String}
       moveParts (storeFor s.cmap cls) s e.parts 0 = some (s1, news) ∧
       tryAddRefs s1 (sharedIds (storeFor s.cmap cls) e.parts) = some s2 ∧
       commit s2 t (partsOf s2 t) news (some { e with cls := some cls, parts := news.map (·.row) }) = some s' := by
-  simp only [apply] at ha
+  simp only [apply, transitionWith] at ha
   split at ha
   · rename_i hv
     cases hf : findEnt s t with
@@ -301,6 +304,95 @@ theorem transition_same_store_relabels {s s' : State} {t : Nat} {cls : String} (
       rfl
   · cases hadd
 
+-- ---------------------------------------------------------------- part-store faults during the copy steps
+
+/-- A call that fails leaves no trace in the routing state (whatever the fault plan). -/
+theorem failed_call_leaves_no_trace {s s' : State} {op : Op} {flt : Option Fault}
+    (h : stepF s op flt = (s', false)) : s' = s := by
+  unfold stepF at h
+  cases ha : applyF s op flt with
+  | none => rw [ha] at h; simp only [Prod.mk.injEq, and_true] at h; exact h.symm
+  | some x => rw [ha] at h; simp at h
+
+/-- Whatever part-store fault strikes whichever copy step of whichever call: the call either
+fails or does exactly what it does without the fault. -/
+theorem fault_dichotomy (s : State) (op : Op) (flt : Option Fault) :
+    applyF s op flt = none ∨ applyF s op flt = apply s op := applyF_dichotomy s op flt
+
+/-- **Every aborting fault at every copy step aborts the transition.** If `srcStore.GetPart`
+fails, the source stream breaks, or `targetStore.PutPart` fails (with or without a failing
+`Close` on top) at any of the copy steps the transition performs, the transition fails and the
+routing state — part rows, classes, registry, index, store contents — is the one before the call. -/
+theorem transition_fault_aborts {s : State} {t : Nat} {cls : String} {e : Ent} {f : Fault}
+    (hf : findEnt s t = some e) (hab : f.aborts = true)
+    (hstep : f.step < crossCount (storeFor s.cmap cls) e.parts) :
+    stepF s (.transition t cls) (some f) = (s, false) := by
+  unfold stepF
+  have : applyF s (.transition t cls) (some f) = none := by
+    simp only [applyF, transitionWith]
+    split
+    · rw [hf]
+      simp only []
+      rw [movePartsF_abort _ e.parts f s 0 hab hstep]
+    · rfl
+  rw [this]
+
+/-- A fault that only makes `Close` fail, or that is planned for a copy step the transition does not
+reach, changes nothing. -/
+theorem transition_fault_harmless {s : State} {t : Nat} {cls : String} {f : Fault}
+    (h : f.aborts = false ∨ ∀ e, findEnt s t = some e → crossCount (storeFor s.cmap cls) e.parts ≤ f.step) :
+    applyF s (.transition t cls) (some f) = apply s (.transition t cls) := by
+  simp only [applyF, apply, transitionWith]
+  split
+  · cases hf : findEnt s t with
+    | none => rfl
+    | some e =>
+      simp only []
+      have : f.aborts = false ∨ crossCount (storeFor s.cmap cls) e.parts ≤ f.step := by
+        rcases h with h | h
+        · exact Or.inl h
+        · exact Or.inr (h e hf)
+      rw [movePartsF_harmless _ e.parts f s 0 this]
+  · rfl
+
+/-- **A transition under any part-store fault.** From a state with the invariant, for every fault
+plan: the invariant holds afterwards and every entity is readable; if the call failed the state is
+untouched; if it succeeded it is a fault-free successful transition (so `transition_routes` and
+`transition_keeps_content` apply to it). -/
+theorem transition_under_faults {s : State} (h : Inv s) (t : Nat) (cls : String) (flt : Option Fault) :
+    Inv (stepF s (.transition t cls) flt).1 ∧
+    (∀ e ∈ (stepF s (.transition t cls) flt).1.ents, Readable (stepF s (.transition t cls) flt).1 e) ∧
+    ((stepF s (.transition t cls) flt).2 = false → (stepF s (.transition t cls) flt).1 = s) ∧
+    ((stepF s (.transition t cls) flt).2 = true →
+      step s (.transition t cls) = ((stepF s (.transition t cls) flt).1, true)) := by
+  have hi := stepF_inv h (.transition t cls) flt
+  refine ⟨hi, readable_of_inv hi, ?_, ?_⟩
+  · intro h2
+    unfold stepF at h2 ⊢
+    cases ha : applyF s (.transition t cls) flt with
+    | none => rfl
+    | some x => rw [ha] at h2; simp at h2
+  · intro h2
+    unfold stepF at h2 ⊢
+    cases ha : applyF s (.transition t cls) flt with
+    | none => rw [ha] at h2; simp at h2
+    | some x =>
+      simp only []
+      rcases applyF_dichotomy s (.transition t cls) flt with hd | hd
+      · rw [hd] at ha; cases ha
+      · rw [hd] at ha
+        unfold step
+        rw [ha]
+
+/-- **(b) with faults.** The invariant — and with it the readability of every entity — holds after
+every history in which any call may be struck by any part-store fault. -/
+theorem invariant_all_faulty_histories (stores : List SName) (cmap : List (String × String))
+    (hcfg : CfgOk stores cmap) (ops : List (Op × Option Fault)) :
+    Inv (runF (init stores cmap) ops) ∧
+    ∀ e ∈ (runF (init stores cmap) ops).ents, Readable (runF (init stores cmap) ops) e := by
+  have h := runF_inv (init_inv hcfg.1 hcfg.2) ops
+  exact ⟨h, readable_of_inv h⟩
+
 -- ---------------------------------------------------------------- non-vacuity
 
 /-- Three stores, the configuration of the harness's "route" stack. -/
@@ -347,5 +439,15 @@ example :
 example :
     let s := run exState [.transition 0 "DEEP_ARCHIVE", .delete 2, .gc]
     (s.ents.map (readBack s)) = [[some 7, some 7]] ∧ s.reg 0 = 2 := by decide
+
+-- faults: entity 0 of `exState` has two parts in "cold"; a transition to STANDARD_IA copies both.
+-- A failing PutPart at the second copy step aborts (after the first copy was already made) …
+example : (stepF exState (.transition 0 "STANDARD_IA") (some ⟨1, .put, false⟩)).2 = false ∧
+    crossCount (storeFor exState.cmap "STANDARD_IA") [⟨0, "cold", 7, 0⟩, ⟨0, "cold", 7, 1⟩] = 2 := by decide
+-- … a broken source stream at the first one too, also when Close fails on top …
+example : (stepF exState (.transition 0 "STANDARD_IA") (some ⟨0, .read, true⟩)).2 = false := by decide
+-- … while a failing Close alone, or a fault planned for a third copy step, lets it succeed
+example : (stepF exState (.transition 0 "STANDARD_IA") (some ⟨0, .close, true⟩)).2 = true ∧
+    (stepF exState (.transition 0 "STANDARD_IA") (some ⟨2, .put, false⟩)).2 = true := by decide
 
 end Pithos.C14Routing
